@@ -816,6 +816,9 @@ class StateInventory:
             patches = [t for (g, _n, t, _v) in sc.patch_sites if g is f]
             nparams = len(f.params)
             why = self.impurities(f, depth=0 if (nparams == 0 and patches) else 2)
+            if any((dotted(d.func if isinstance(d, ast.Call) else d) or '').endswith('cached_property') for d in decs):
+                # stored in the instance __dict__: state of that object, like any attribute (the mutation inventory has the instance)
+                why = [w for w in why if not w.startswith('method:')]
             if nparams == 0 and patches and not why:
                 kind = 'onceInstaller'
                 detail = 'zero-argument cached installer: ' + '; '.join(patches)
@@ -1750,6 +1753,9 @@ class NondetInventory:
         ('os.getpid', 'ident'), ('os.getppid', 'ident'), ('threading.get_ident', 'ident'), ('id', 'ident'), ('hash', 'ident'),
         ('ipc.', 'tool'), ('subprocess.', 'tool'), ('ctypes.CDLL', 'tool'), ('os.popen', 'tool'), ('os.system', 'tool'),
         ('locale.', 'env'), ('getpass.', 'env'), ('socket.', 'env'), ('platform.', 'env'),
+        ('concurrent.futures.ProcessPoolExecutor', 'procpool'), ('multiprocessing.Pool', 'procpool'),
+        ('concurrent.futures.ThreadPoolExecutor', 'thread'), ('threading.', 'thread'), ('multiprocessing.pool.ThreadPool', 'thread'),
+        ('multiprocessing.dummy', 'thread'), ('_thread.', 'thread'), ('asyncio.', 'thread'),
     ]
     def __init__(self, scan):
         self.sc = scan
@@ -1803,6 +1809,10 @@ class NondetInventory:
         sc = self.sc
         if cat == 'clock':
             return 'clock', 'current date/time (an input of the property)'
+        if cat == 'procpool':
+            return 'processPool', 'pool of worker PROCESSES (each with its own copy of the global state: modelled by CliState.parExec)'
+        if cat == 'thread':
+            return 'other', 'threads share sys.stdout (check_file_s swaps it) and every global of the process'
         if cat == 'stack':
             return 'currentStack', 'frame inspection of the running call'
         if cat == 'cpu':
